@@ -12,7 +12,7 @@ import json, os, re, shutil, subprocess, sys, time
 
 VERIF = os.path.dirname(os.path.dirname(os.path.abspath(__file__)))
 SEEDED = os.path.join(VERIF, "seeded")
-REPO = "/repo"
+REPO = os.environ.get("VERIF_REPO", "/repo")
 
 
 def sh(cmd, cwd=None, timeout=3600, env=None):
@@ -143,7 +143,33 @@ def cmd_detect(sid, checks):
     return 0
 
 
+def cmd_table():
+    """Markdown table for DESIGN.md section 10."""
+    print("| seed | breaks | change (file: what) | confirmed | caught by (quick tier) | first violation keys |")
+    print("|---|---|---|---|---|---|")
+    for sid in sorted(os.listdir(SEEDED)):
+        m = load_meta(sid)
+        if not m:
+            continue
+        patch = open(os.path.join(SEEDED, sid, "patch.diff")).read()
+        files = sorted(set(re.findall(r"^\+\+\+ b/(\S+)", patch, re.M)))
+        what = (m.get("summary") or m.get("needs_to_manifest", "").split("\n")[0])[:150].replace("|", "\\|")
+        ver = m.get("verification", {})
+        conf = "yes" if ver.get("confirmed") else ("tests.sh differs" if ver.get("compiles_with_patch") else "?")
+        det = m.get("detection", {})
+        caught = [c for c, d in det.items() if d.get("caught")]
+        missed = [c for c, d in det.items() if not d.get("caught")]
+        keys = []
+        for c in caught:
+            keys += [k.split(" x ", 1)[1][:70] for k in det[c]["violation_keys"][:2]]
+        print("| %s | %s | %s: %s | %s | %s%s | %s |" % (sid, m.get("breaks_property"), ", ".join(files), what, conf, ", ".join(caught) or "-",
+              (" (missed by: %s)" % ", ".join(missed)) if missed else "", "; ".join("`%s`" % k.replace("|", "\\|").replace("`", "'") for k in keys[:3])))
+    return 0
+
+
 def main(argv):
+    if argv[1] == "table":
+        return cmd_table()
     if argv[1] == "import":
         return cmd_import(argv[2], argv[3], argv[4])
     if argv[1] == "verify":
